@@ -1,6 +1,7 @@
 import GdModel.Driver.Util
 import GdModel.Driver.Field
 import GdModel.Token.Spec
+import GdModel.Token.Escape
 namespace GdModel.Driver
 open GdModel.Token
 
@@ -25,5 +26,10 @@ def handleTok (spec : Bool) (args : List String) : String :=
       let r := Impl.tokenise v6 want input
       s!"tok n={r.tokens.length} e={showErr r.err} pos={r.consumed} t={",".intercalate (r.tokens.map showTok)}"
   | _ => "bad-op"
+
+/-- `escape <hex>` → the token as gd_metaflush writes it; `escape -` = the empty string -/
+def handleEscape (args : List String) : String :=
+  let s := if args.headD "-" == "-" then [] else hexBytes (args.headD "")
+  "escape " ++ showTok (GdModel.Token.escapeStr s)
 
 end GdModel.Driver
